@@ -29,6 +29,9 @@ def main():
         shutil.copy(f'{wt}/_seed/{m}_demo.py', f'{dst}/demo.py')
         if os.path.exists(f'{wt}/_seed/{m}_notes.md'):
             shutil.copy(f'{wt}/_seed/{m}_notes.md', f'{dst}/notes.md')
+        for extra in os.listdir(f'{wt}/_seed'):            # helper modules shared by the demonstrations
+            if extra.endswith('.py') and not extra.endswith('_demo.py'):
+                shutil.copy(f'{wt}/_seed/{extra}', f'{dst}/{extra}')
         sh('git checkout -- .', cwd=wt)
         env = dict(os.environ, PYTHONDONTWRITEBYTECODE='1', PROTOCOL_BUFFERS_PYTHON_IMPLEMENTATION='python')
         clean_rc, _ = sh(f'/venv/bin/python _seed/{m}_demo.py', cwd=wt, env=env)
